@@ -158,6 +158,51 @@ def json_targets_leg(ck):
             ck.nontrivial(('json-targets', lst, threads))
 
 
+def other_sections_leg(ck):
+    """What else ends in the report besides the SSH-2 algorithm sections: the connection-rate check's note (the check left on, a server
+    that accepts connections quickly) and the sections of an SSH-1 report.  The status is still the worst tagged finding shown:
+    a note is not a finding that could lower it, and a failure among the SSH-1 authentication types counts like one among the ciphers."""
+    shapes = [('fail', dict(kex=['diffie-hellman-group14-sha256', 'curve25519-sha256', 'kex-strict-s-v00@openssh.com'], enc=['aes256-ctr', '3des-cbc'], mac=['hmac-sha2-256'])),
+              ('warn', dict(kex=['diffie-hellman-group16-sha512', 'kex-strict-s-v00@openssh.com'], enc=['aes256-ctr'], mac=['hmac-sha2-256'])),
+              ('fail', dict(kex=['diffie-hellman-group1-sha1', 'kex-strict-s-v00@openssh.com'], enc=['aes256-gcm@openssh.com'], mac=['hmac-sha2-256-etm@openssh.com']))]
+    scs, meta = [], []
+    for k, (worst, sh) in enumerate(shapes):
+        c = rating.mk_case(7100 + k, key=['ssh-ed25519'], **sh)
+        for view in ('text', 'json'):
+            sc = rating.scenario(c, view)
+            sc['argv'] = [a for a in sc['argv'] if a != '--skip-rate-test']
+            sc['rtt'] = 0.0002
+            scs.append(sc)
+            meta.append(('rate-note/%s' % worst, view))
+    for cm, am in ((0x48, 0x0c), (0x48, 0x0e), (0x48, 0x4c), (0x08, 0x4e), (0x2c, 0x0c), (0x09, 0x0c)):
+        cfg = peers.ServerCfg(banner=b'SSH-1.5-OpenSSH_1.2.3', ssh1={'cmask': cm, 'amask': am}, wrong_version_text=b'Protocol major versions differ.')
+        for argv in (['-n', '-1', rating.HOST], ['-n', rating.HOST], ['-n', '-b', '-v', '-1', rating.HOST]):
+            scs.append({'argv': argv, 'servers': {(rating.HOST, 22): cfg}})
+            meta.append(('ssh1/cm=%#x/am=%#x' % (cm, am), 'text'))
+    for (what, view), sc, r in zip(meta, scs, runner.run_many(scs)):
+        ck.evaluated()
+        if r.get('harness_error') or r.get('hang'):
+            raise common.Machinery('run failed: %r' % (r.get('harness_error') or 'hang'))
+        replay = {'scenario': what, 'view': view, 'argv': sc['argv'], 'exit': r['exit'], 'stdout': r['stdout'][-2500:]}
+        if r['exit'] not in (0, 2, 3):
+            ck.violation('no-report exit=%s scenario=%s' % (r['exit'], what.split('/')[0]), 'status %s' % r['exit'], replay)
+            continue
+        if view == 'json':
+            doc = json.loads(r['stdout'])
+            lv = {l for cat in ('kex', 'key', 'enc', 'mac') for a in doc.get(cat, []) for l in ('fail', 'warn') if (a.get('notes') or {}).get(l)}
+        else:
+            out = report.strip_ansi(r['stdout'])
+            lv = {t for t in ('fail', 'warn') if ('[%s]' % t) in out}
+        if what.startswith('rate-note') and view == 'text' and 'throttling' not in r['stdout']:
+            ck.log('other-sections leg: no rate note in %s' % what)
+        worst = 3 if 'fail' in lv else (2 if 'warn' in lv else 0)
+        if worst != r['exit']:
+            ck.violation('status-vs-tags scenario=%s' % what.split('/')[0], '[%s, %s] exit status %s, the tagged findings shown imply %s' % (what, view, r['exit'], worst), replay)
+        else:
+            ck.cov['traces_validated_against_impl'] += 1
+            ck.nontrivial(('other-sections', what, view, tuple(sc['argv'][:3])))
+
+
 def entry_leg(ck, tier, cases, expected, rnd):
     """The same audits started the other ways the tool can be started - `python -m ssh_audit` (package __main__), `python -m
     ssh_audit.ssh_audit`, the console script of setup.cfg (sys.exit(main())) - leave with the status the default start leaves with:
@@ -268,6 +313,7 @@ def run(tier):
         ck.sample({'trace': rating.trace_of(*items[len(items) // 2])})
     targets_leg(ck, tier)
     directions_leg(ck)
+    other_sections_leg(ck)
     json_targets_leg(ck)
     entry_leg(ck, tier, cases, expected, rnd)
     for modname, fn in (('checks.c09', 'c02_leg'), ('checks.c06', 'c02_leg')):
